@@ -282,7 +282,7 @@ fn run_maxmin(rep: &mut Report, n: usize, xs: &[f64]) {
 }
 
 pub fn run(ctx: &Ctx) -> Report {
-    let njobs = ctx.pick(640, 6400);
+    let njobs = ctx.pick(3200, 64000);
     let seed = ctx.seed;
     let maxlen = ctx.pick(3000usize, 8000usize);
     let jobs: Vec<usize> = (0..njobs).collect();
